@@ -93,10 +93,11 @@ func (e *Engine) readerState(st *State, key *smt.Term) (pos, avail *smt.Term) {
 }
 
 // readN models reading exactly n (a term) bytes: returns ok and the start position; advances pos.
-func (e *Engine) readN(st *State, key, n *smt.Term, hint string) (ok, start *smt.Term, errv Val) {
+func (e *Engine) readN(st *State, r Val, key, n *smt.Term, hint string) (ok, start *smt.Term, errv Val) {
 	c := e.C
 	pos, avail := e.readerState(st, key)
 	errv, ok = e.maybeError(st, errorType(), hint)
+	e.inMemorySource(st, r, key, pos, n, ok)
 	adv := c.Fresh(hint+".adv", smt.BV(64))
 	e.assume(st, c.And(bvle(c, c.BVLit64(0, 64), adv), bvle(c, adv, n), bvle(c, bvadd(c, pos, adv), avail),
 		c.Implies(ok, c.Eq(adv, n)),
@@ -183,6 +184,7 @@ func init() {
 		"encoding/binary.Read":  modelBinaryRead,
 		"encoding/binary.Write": modelBinaryWrite,
 		"io.ReadFull":           modelReadFull,
+		"io.LimitReader":        modelLimitReader,
 		"io.CopyN":              modelCopyN,
 		"bytes.NewBuffer":       modelNewBuffer,
 		"bytes.NewReader":       modelNewReader,
@@ -499,6 +501,27 @@ func init() {
 	invokeModels = map[string]invokeModel{
 		"io.Writer.Write": modelWriterWrite,
 		"io.Reader.Read":  modelReaderRead,
+		// io.Seeker (documented contract, ASSUMED): on success the offset is whence-base + offset. The ghost position of
+		// a stream is the number of bytes consumed, so a seek past the end counts as min(offset, total): nothing more
+		// can be read either way.
+		"io.Seeker.Seek": func(e *Engine, f *frame, st *State, recv Val, args []Val, rt types.Type, pos string) Val {
+			c := e.C
+			key := streamKey(recv)
+			p0, avail := e.readerState(st, key)
+			off, whence := args[0].Terms[0], args[1].Terms[0]
+			z := c.BVLit64(0, 64)
+			base := c.Ite(c.Eq(whence, c.BVLit64(0, 64)), z, c.Ite(c.Eq(whence, c.BVLit64(1, 64)), p0, avail))
+			target := bvadd(c, base, off)
+			errv, okc := e.maybeError(st, errorType(), "seek")
+			validWhence := c.And(bvle(c, z, whence), bvle(c, whence, c.BVLit64(2, 64)))
+			inRange := c.And(bvle(c, c.BVLit64(-sizeBound, 64), off), bvle(c, off, c.BVLit64(sizeBound, 64)))
+			e.assume(st, c.Implies(okc, c.And(validWhence, bvle(c, z, target))))
+			e.assume(st, c.Implies(c.And(validWhence, inRange, bvle(c, z, target)), okc))
+			np := c.Ite(okc, c.Ite(bvle(c, target, avail), target, avail), p0)
+			e.ghostSet(st, gPos, key, np)
+			e.note("io.Seeker.Seek: documented contract assumed (new offset = base(whence) + offset; negative result is an error)")
+			return Val{Typ: rt, Terms: []*smt.Term{c.Ite(okc, target, z), errv.Terms[0], errv.Terms[1]}}
+		},
 		"error.Error": func(e *Engine, f *frame, st *State, recv Val, args []Val, rt types.Type, pos string) Val {
 			v := e.fresh("errstr", rt)
 			e.assume(st, e.validVal(st, v))
@@ -592,7 +615,7 @@ func modelBinaryRead(e *Engine, f *frame, st *State, args []Val, rt types.Type, 
 	}
 	little := isLittle(order)
 	key := streamKey(r)
-	okc, start, errv := e.readN(st, key, c.BVLit64(int64(n), 64), "binread")
+	okc, start, errv := e.readN(st, r, key, c.BVLit64(int64(n), 64), "binread")
 	inner := e.ghostGet(st, pData, key)
 	var bs []*smt.Term
 	for i := 0; i < n; i++ {
@@ -671,6 +694,7 @@ func modelReadFull(e *Engine, f *frame, st *State, args []Val, rt types.Type, po
 	key := streamKey(r)
 	pos0, avail := e.readerState(st, key)
 	errv, okc := e.maybeError(st, errorType(), "readfull")
+	e.inMemorySource(st, r, key, pos0, buf.Terms[2], okc)
 	part := c.Fresh("readfull.n", smt.BV(64))
 	// success: exactly len(buf) bytes; failure: fewer
 	n := c.Ite(okc, buf.Terms[2], part)
@@ -747,6 +771,11 @@ func modelNewBuffer(e *Engine, f *frame, st *State, args []Val, rt types.Type, p
 	e.ghostSet(st, gWData, ref, win)
 	e.ghostSet(st, pData, ref, win)
 	e.ghostSet(st, pAvail, ref, b.Terms[2])
+	if e.Share != nil && e.quiet == 0 {
+		// the buffer takes ownership of the slice: later writes to the buffer land in its backing array
+		e.oblige(st, "share", "", c.Or(c.Eq(b.Terms[0], c.IntLit(0)), c.Op(">=", smt.Bool, b.Terms[0], e.Share.alloc0), e.own(b.Terms[0])), pos,
+			"bytes.NewBuffer takes ownership of its argument (writes to the buffer land in the slice's backing array): it is fresh or caller-owned")
+	}
 	e.note("bytes.NewBuffer: buffer is modelled as owning a copy of the initial bytes")
 	v := Val{Typ: rt, Terms: []*smt.Term{ref}}
 	e.wrapPtr(&v)
@@ -815,11 +844,59 @@ func (e *Engine) syncBuffer(st *State, key, tag *smt.Term) {
 	st.Heap[pData] = c.Store(e.ghost(st, pData), key, c.Ite(isBuf, wd, c.Select(e.ghost(st, pData), key)))
 }
 
-func bufferPtrType(e *Engine) types.Type {
+func bufferPtrType(e *Engine) types.Type { return bytesPtrType(e, "Buffer") }
+
+func bytesPtrType(e *Engine, name string) types.Type {
 	for _, p := range e.W.Prog.AllPackages() {
 		if p.Pkg.Path() == "bytes" {
-			return types.NewPointer(p.Pkg.Scope().Lookup("Buffer").Type())
+			return types.NewPointer(p.Pkg.Scope().Lookup(name).Type())
 		}
 	}
 	panic("package bytes not loaded")
+}
+
+// inMemorySource: reading n bytes from a *bytes.Buffer or *bytes.Reader that holds at least n more bytes cannot fail
+// (their documented behaviour); other readers may fail at any time.
+func (e *Engine) inMemorySource(st *State, r Val, key, pos0, n, ok *smt.Term) {
+	c := e.C
+	var isMem *smt.Term
+	if isInterface(r.Typ) {
+		isMem = c.Or(c.Eq(r.Terms[0], c.IntLit(int64(e.typeTag(bytesPtrType(e, "Buffer"))))), c.Eq(r.Terms[0], c.IntLit(int64(e.typeTag(bytesPtrType(e, "Reader"))))))
+	} else if ts := typeStr(r.Typ); ts == "*bytes.Buffer" || ts == "*bytes.Reader" {
+		isMem = c.True()
+	} else {
+		return
+	}
+	avail := e.ghostGet(st, pAvail, key)
+	e.assume(st, c.Implies(c.And(isMem, bvle(c, c.BVLit64(0, 64), n), bvle(c, bvadd(c, pos0, n), avail)), ok))
+}
+
+// io.LimitReader(r, n): a new reader that delivers at most n of r's remaining bytes. The wrapper is a fresh object with
+// its own prophecy (a prefix of r's remaining bytes); how far r itself has been advanced when the wrapper is dropped is
+// over-approximated at creation: by some k with 0 <= k <= min(max(n,0), remaining).
+func modelLimitReader(e *Engine, f *frame, st *State, args []Val, rt types.Type, pos string) Val {
+	c := e.C
+	r, n := args[0], args[1].Terms[0]
+	rkey := streamKey(r)
+	pos0, avail := e.readerState(st, rkey)
+	z := c.BVLit64(0, 64)
+	a := c.Fresh("limit.avail", smt.BV(64))
+	k := c.Fresh("limit.k", smt.BV(64))
+	nn := c.Ite(bvle(c, n, z), z, n)
+	e.assume(st, c.And(bvle(c, z, a), bvle(c, a, nn), bvle(c, bvadd(c, pos0, a), avail), bvle(c, z, k), bvle(c, k, a)))
+	ref := e.newRef(st)
+	e.quiet++
+	e.ghostSet(st, pAvail, ref, a)
+	e.ghostSet(st, gPos, ref, z)
+	e.ghostSet(st, pData, ref, e.window(e.ghostGet(st, pData, rkey), pos0, a))
+	e.quiet--
+	e.ghostSet(st, gPos, rkey, bvadd(c, pos0, k))
+	var lt types.Type
+	for _, p := range e.W.Prog.AllPackages() {
+		if p.Pkg.Path() == "io" {
+			lt = types.NewPointer(p.Pkg.Scope().Lookup("LimitedReader").Type())
+		}
+	}
+	e.note("io.LimitReader: the wrapper is a fresh reader over a prefix of the source; the source's own position is advanced by an unknown amount up to the limit when the wrapper is created (over-approximation)")
+	return Val{Typ: rt, Terms: []*smt.Term{c.IntLit(int64(e.typeTag(lt))), ref}}
 }
